@@ -872,7 +872,7 @@ impl Sim {
 
     fn run_pair_b_alone(&mut self, op: u64) -> Option<String> {
         let job = self.pair_job(op)?;
-        let rx = crate::runner::spawn_pair(job);
+        let mut rx = crate::runner::spawn_pair(job);
         match rx.recv_timeout(std::time::Duration::from_secs(20)) {
             Ok(r) => Some(r),
             Err(_) => {
